@@ -40,6 +40,28 @@ def formOf (rules : Rules) (v : Verb) (t : Tense) (i : Nat) : Str × Nat :=
   | some tb => form tb v.lemma t i
   | none => (bracket v.lemma, 1)
 
+/-! cells of list-valued rows -/
+
+theorem cell6 {tb : Table} {t : Tense} {a b c d e f : Option Str}
+    (h : tb.row? t.code = some (.list [a, b, c, d, e, f])) (pe : Person) (n : Num) :
+    cell tb t (idx6 pe n) = pick6 a b c d e f pe n := by
+  unfold cell
+  rw [h]
+  cases pe <;> cases n <;> rfl
+
+theorem cell4 {tb : Table} {t : Tense} {a b c d : Option Str}
+    (h : tb.row? t.code = some (.list [a, b, c, d])) (n : Num) (g : Gender) :
+    cell tb t (ConjFr.idx4 n g) = pick4 a b c d n g := by
+  unfold cell
+  rw [h]
+  cases n <;> cases g <;> rfl
+
+theorem cellStr {tb : Table} {t : Tense} {y : Str} (h : tb.row? t.code = some (.str y)) (i : Nat) :
+    cell tb t i = some y := by
+  unfold cell
+  rw [h]
+
+
 /-! ### English -/
 
 /-- a word of an English periphrase -/
@@ -96,25 +118,28 @@ def specEnTb (rules : Rules) (will have_ : Verb) (tb : Table) (lemma : Str) (pe 
     let m := main.render tb lemma (idx6 pe n)
     { pre := ws.map (·.1), self := m.1, warns := (ws.map (·.2)).sum + m.2 }
 
-/-- well-formed English data: the verb and the two auxiliaries -/
-def WFEn (rules : Rules) (env : ConjEn.EnEnv) (v : Verb) : Prop :=
-  wfVerbEn rules v = true ∧
-  ∃ w h, env.will = some w ∧ env.have_ = some h ∧ w.lemma = s "will" ∧ h.lemma = s "have" ∧
-    wfVerbEn rules w = true ∧ wfVerbEn rules h = true
+/-- well-formed English data (decidable): the verb and the two auxiliaries `will`, `have` -/
+def wfEnB (rules : Rules) (env : ConjEn.EnEnv) (v : Verb) : Bool :=
+  wfVerbEn rules v &&
+  match env.will, env.have_ with
+  | some w, some h => w.lemma == s "will" && h.lemma == s "have" && wfVerbEn rules w && wfVerbEn rules h
+  | _, _ => false
 
-instance (rules : Rules) (env : ConjEn.EnEnv) (v : Verb) : Decidable (WFEn rules env v) := by
-  unfold WFEn
+def WFEn (rules : Rules) (env : ConjEn.EnEnv) (v : Verb) : Prop := wfEnB rules env v = true
+
+theorem WFEn_elim {rules : Rules} {env : ConjEn.EnEnv} {v : Verb} (h : WFEn rules env v) :
+    wfVerbEn rules v = true ∧
+    ∃ w h, env.will = some w ∧ env.have_ = some h ∧ w.lemma = s "will" ∧ h.lemma = s "have" ∧
+      wfVerbEn rules w = true ∧ wfVerbEn rules h = true := by
+  unfold WFEn wfEnB at h
   cases hw : env.will with
-  | none => exact isFalse (by rintro ⟨_, w, h, h1, _⟩; simp at h1)
+  | none => simp [hw] at h
   | some w =>
     cases hh : env.have_ with
-    | none => exact isFalse (by rintro ⟨_, w, h, _, h2, _⟩; simp at h2)
-    | some h =>
-      exact decidable_of_iff (wfVerbEn rules v = true ∧ w.lemma = s "will" ∧ h.lemma = s "have" ∧
-          wfVerbEn rules w = true ∧ wfVerbEn rules h = true)
-        ⟨fun ⟨a, b, c, d, e⟩ => ⟨a, w, h, rfl, rfl, b, c, d, e⟩,
-         fun ⟨a, w', h', e1, e2, b, c, d, e⟩ => by
-           cases e1; cases e2; exact ⟨a, b, c, d, e⟩⟩
+    | none => simp [hw, hh] at h
+    | some h' =>
+      simp only [hw, hh, Bool.and_eq_true, beq_iff_eq] at h
+      exact ⟨h.1, w, h', rfl, rfl, h.2.1.1.1, h.2.1.1.2, h.2.1.2, h.2.2⟩
 
 /-- the specification of `V(v.lemma).t(t).pe(pe).n(n)` (English) -/
 def specEn (rules : Rules) (env : ConjEn.EnEnv) (v : Verb) (pe : Person) (n : Num) (t : Tense) : ConjEn.EnOut :=
@@ -127,14 +152,9 @@ def conjEn_spec : Prop :=
   ∀ (rules : Rules) (env : ConjEn.EnEnv) (v : Verb) (pe : Person) (n : Num) (t : Tense),
     WFEn rules env v → ConjEn.conjugate rules env v.lemma (some v) pe n t = .ok (specEn rules env v pe n t)
 
-/-- side condition under which the code meets the specification: not the perfect infinitives (which ignore the
-    participle), and for the past subjunctive a string-valued `ps` row (or the verb `be`) -/
-def SideEn (rules : Rules) (v : Verb) (t : Tense) : Prop :=
-  t ≠ .bp ∧ t ≠ .bpTo ∧
-  (t = .si → v.lemma = s "be" ∨ ∃ tb x, lookup v.tab rules = some tb ∧ tb.row? Tense.ps.code = some (.str x))
-
 /-! #### the model on a well-formed table -/
 
+set_option linter.unusedSimpArgs false in
 /-- the simple tenses `p ps pr pp b`: the model renders the cell, whatever the nested realizer -/
 theorem conjugateWith_cell (nested : ConjEn.Nested) (rules : Rules) (env : ConjEn.EnEnv) (v : Verb) (tb : Table)
     (pe : Person) (n : Num) (t : Tense) (htb : lookup v.tab rules = some tb) (hwf : wfTableEn tb = true)
@@ -152,24 +172,16 @@ theorem conjugateWith_cell (nested : ConjEn.Nested) (rules : Rules) (env : ConjE
       simp [hno, form, cell, hrow, ConjEn.morpho]
   | some r =>
     have hyes : tb.hasRow t.code = true := by simp [Table.hasRow, hrow, R.hasT]
-    rcases R.row t r hrow with ⟨_, x, rfl⟩ | ⟨_, ⟨x, rfl⟩ | ⟨a, b, c, d, e, f, rfl⟩⟩
+    rcases R.row t r hrow with ⟨_, x, rfl⟩ | ⟨hlist, ⟨x, rfl⟩ | ⟨a, b, c, d, e, f, rfl⟩⟩
     · rcases ht with rfl | rfl | rfl | rfl | rfl <;>
         simp [hyes, hrow, form, cell, stemOf, Row.concat]
     · rcases ht with rfl | rfl | rfl | rfl | rfl <;>
         simp [hyes, hrow, form, cell, stemOf, Row.concat]
-    · rcases ht with rfl | rfl | rfl | rfl | rfl <;>
-        cases pe <;> cases n <;> (try cases a) <;> (try cases b) <;> (try cases c) <;> (try cases d) <;>
-          (try cases e) <;> (try cases f) <;>
-          simp_all [form, cell, stemOf, Row.at, idx6, Person.toNat, ConjEn.morpho]
-
-theorem noRowEn {tb : Table} (R : EnRows tb) {t : Tense}
-    (ht : t ≠ .p ∧ t ≠ .ps ∧ t ≠ .pr ∧ t ≠ .pp ∧ t ≠ .b) : tb.hasRow t.code = false := by
-  cases hrow : tb.row? t.code with
-  | none => simp [Table.hasRow, hrow]
-  | some r =>
-    rcases R.row t r hrow with ⟨h, _⟩ | ⟨h, _⟩
-    · rcases h with rfl | rfl | rfl <;> simp at ht
-    · rcases h with rfl | rfl <;> simp at ht
+    · have hc := cell6 hrow pe n
+      rcases ht with rfl | rfl | rfl | rfl | rfl <;> simp only [hyes, hrow] <;>
+        first
+          | (exfalso; simp at hlist; done)
+          | (cases hp : pick6 a b c d e f pe n <;> simp [form, hc, hp, stemOf, at6, ConjEn.morpho])
 
 /-- the nested `V(aux).t(ta).realize()` of `insertReal` gives the auxiliary's cell for the third person singular -/
 theorem nestedReal_cell (rules : Rules) (env : ConjEn.EnEnv) (w : Verb) (ta : Tense)
@@ -181,15 +193,27 @@ theorem nestedReal_cell (rules : Rules) (env : ConjEn.EnEnv) (w : Verb) (ta : Te
     rcases ht with rfl | rfl | rfl <;> simp)]
   simp [formOf, htb]
 
-/-- **C01.en (what holds)** outside the perfect infinitives and the past subjunctive of a verb without a
-    string-valued `ps` row, the model of `TerminalEn.conjugate` IS the specification — all tables, all lemmas -/
-theorem conjEn_spec_partial (rules : Rules) (env : ConjEn.EnEnv) (v : Verb) (pe : Person) (n : Num) (t : Tense)
-    (hWF : WFEn rules env v) (hside : SideEn rules v t) :
-    ConjEn.conjugate rules env v.lemma (some v) pe n t = .ok (specEn rules env v pe n t) := by
-  obtain ⟨hv, w, h, hew, heh, hwl, hhl, hw, hh⟩ := hWF
+/-- the participle slot of the perfect infinitives is the `pp` cell -/
+theorem participle_form {tb : Table} (R : EnRows tb) (tab lemma : Str) (i : Nat) :
+    ConjEn.participle tb { lemma := lemma, tab := some tab, stem := stemOf tb lemma, warns := 0 } =
+      .ok (form tb lemma .pp i) := by
+  unfold ConjEn.participle
+  simp only [R.hasT, if_true]
+  cases hrow : tb.row? (s "pp") with
+  | none => simp [form, cell, show tb.row? Tense.pp.code = none from hrow]
+  | some r =>
+    have hrow' : tb.row? Tense.pp.code = some r := hrow
+    rcases R.row .pp r hrow' with ⟨_, y, rfl⟩ | ⟨h, _⟩
+    · simp [form, cell, hrow', Row.concat]
+    · simp at h
+
+/-- **C01.en** holds: the model of `TerminalEn.conjugate` IS the specification — all tables, lemmas, tenses,
+    persons, numbers -/
+theorem conjEn_spec_holds : conjEn_spec := by
+  intro rules env v pe n t hWF
+  obtain ⟨hv, w, h, hew, heh, hwl, hhl, hw, hh⟩ := WFEn_elim hWF
   obtain ⟨tb, htb, hwf, hend⟩ := wfVerb_elim hv
   have R := wfTableEn_elim hwf
-  obtain ⟨hbp, hbpto, hsi⟩ := hside
   unfold ConjEn.conjugate
   by_cases hcell : t = .p ∨ t = .ps ∨ t = .pr ∨ t = .pp ∨ t = .b
   · rw [conjugateWith_cell _ rules env v tb pe n t htb hwf hend hcell]
@@ -199,21 +223,629 @@ theorem conjEn_spec_partial (rules : Rules) (env : ConjEn.EnEnv) (v : Verb) (pe 
       refine ⟨?_, ?_, ?_, ?_, ?_⟩ <;> (intro h; subst h; simp at hcell))
     have hn1 := nestedReal_cell rules env w .p hw (by simp)
     have hn2 := nestedReal_cell rules env w .ps hw (by simp)
+    have hn3 := nestedReal_cell rules env h .b hh (by simp)
     rw [hwl] at hn1 hn2
+    rw [hhl] at hn3
+    have hpp := participle_form R v.tab v.lemma (idx6 pe n)
     rw [setLemma_wf htb hend]
     unfold ConjEn.conjugateWith
     simp only [htb, hno]
-    cases t <;> simp at hcell hbp hbpto <;>
-      simp [specEn, htb, hew, heh, specEnTb, tenseEn, MainEn.render, SlotEn.render, ConjEn.morpho, hn1, hn2]
-    -- what is left: `si` and `ip`
+    cases t <;> simp at hcell <;>
+      simp [specEn, htb, hew, heh, specEnTb, tenseEn, MainEn.render, SlotEn.render, ConjEn.morpho, hn1, hn2, hn3,
+        show dropRight v.lemma tb.ending.length = stemOf tb v.lemma from rfl, hpp]
+    -- what is left: `si`, `ip`
     · by_cases hbe : v.lemma = s "be"
       · simp [hbe]
-      · rcases hsi rfl with hbe' | ⟨tb', x, htb', hps⟩
-        · exact absurd hbe' hbe
-        · rw [htb] at htb'
-          cases htb'
-          have hps' : tb.row? (s "ps") = some (.str x) := hps
-          simp [hbe, R.hasT, hps, hps', Row.concat, form, cell, stemOf]
+      · simp only [hbe, if_false, R.hasT, if_true]
+        cases hrow : tb.row? (s "ps") with
+        | none => simp [form, cell, show tb.row? Tense.ps.code = none from hrow]
+        | some r =>
+          have hrow' : tb.row? Tense.ps.code = some r := hrow
+          rcases R.row .ps r hrow' with ⟨h, _⟩ | ⟨_, ⟨y, rfl⟩ | ⟨a, b, c, d, e, f, rfl⟩⟩
+          · simp at h
+          · simp [form, cell, hrow', stemOf]
+          · have hc := cell6 hrow' pe n
+            simp only [at6]
+            cases hp : pick6 a b c d e f pe n <;> simp [form, hc, hp, stemOf]
     · by_cases hlet : pe = .p1 ∧ n = .p <;> simp [hlet, SlotEn.render]
+
+/-! #### generated data (re-proved against /repo on every run) -/
+
+/-- the table `name` exists and has the shape the code is written for -/
+def tableOK (wf : Table → Bool) (tables : Rules) (name : Str) : Bool :=
+  match lookup name tables with
+  | some tb => wf tb
+  | none => false
+
+/-- **C01.tables-en** every table that an English lexicon verb refers to exists and is well formed -/
+def tables_wf_en : Prop := ∀ name ∈ Gen.ConjEn.used, tableOK wfTableEn Gen.ConjEn.tables name = true
+
+set_option maxRecDepth 100000 in
+theorem tables_wf_en_holds : tables_wf_en := by
+  unfold tables_wf_en
+  decide +kernel
+
+def genEnvEn : ConjEn.EnEnv := { will := Gen.ConjEn.will, have_ := Gen.ConjEn.have_ }
+
+def eatV : Verb := { lemma := s "eat", tab := s "v70" }
+def whizV : Verb := { lemma := s "whiz", tab := s "v82" }
+
+/-- **C01.periphrase-en** the English auxiliaries on the shipped tables: `will` ↦ will / would, `have` ↦ have;
+    the auxiliaries' entries are well formed -/
+def periphrase_en : Prop :=
+  (Gen.ConjEn.will.map (fun w => (formOf Gen.ConjEn.tables w .p 2, formOf Gen.ConjEn.tables w .ps 2))) =
+      some ((s "will", 0), (s "would", 0)) ∧
+  (Gen.ConjEn.have_.map (fun h => formOf Gen.ConjEn.tables h .b 2)) = some (s "have", 0) ∧
+  WFEn Gen.ConjEn.tables genEnvEn eatV
+
+set_option maxRecDepth 100000 in
+theorem periphrase_en_tbl : periphrase_en := by
+  unfold periphrase_en WFEn
+  decide +kernel
+
+/-! #### defective forms, totality (English) -/
+
+/-- **C01.defective-en** a form that the table does not have (row absent or `null`) is realized as the bracketed
+    lemma with exactly one warning: the five cell tenses, and the past subjunctive (= the `ps` cell) -/
+def defective_en : Prop :=
+  ∀ (rules : Rules) (env : ConjEn.EnEnv) (v : Verb) (tb : Table) (pe : Person) (n : Num) (t : Tense),
+    WFEn rules env v → lookup v.tab rules = some tb →
+    (t = .p ∨ t = .ps ∨ t = .pr ∨ t = .pp ∨ t = .b ∨ (t = .si ∧ v.lemma ≠ s "be")) →
+    cell tb (if t = .si then .ps else t) (idx6 pe n) = none →
+    ConjEn.realize rules env v.lemma (some v) pe n t = .ok { text := bracket v.lemma, warns := 1 }
+
+theorem surfaceEn_bracket (lemma : Str) :
+    surfaceEn (({ pre := [], self := bracket lemma, warns := 1 } : ConjEn.EnOut).toks) = bracket lemma := by
+  simp [ConjEn.EnOut.toks, surfaceEn, removeEmpty, detok, stripLeadingSpace, bracket, s]
+
+theorem defective_en_holds : defective_en := by
+  intro rules env v tb pe n t hWF htb ht hc
+  unfold ConjEn.realize
+  rw [conjEn_spec_holds rules env v pe n t hWF]
+  obtain ⟨_, w, h, hew, heh, _⟩ := WFEn_elim hWF
+  have : specEn rules env v pe n t = { pre := [], self := bracket v.lemma, warns := 1 } := by
+    rcases ht with rfl | rfl | rfl | rfl | rfl | ⟨rfl, hbe⟩ <;>
+      simp_all [specEn, specEnTb, tenseEn, MainEn.render, form]
+  rw [this]
+  simp only [surfaceEn_bracket]
+
+/-- **C01.total-en** realization never raises -/
+def total_en : Prop :=
+  ∀ (rules : Rules) (env : ConjEn.EnEnv) (v : Verb) (pe : Person) (n : Num) (t : Tense),
+    WFEn rules env v → ∃ r, ConjEn.realize rules env v.lemma (some v) pe n t = .ok r
+
+theorem total_en_holds : total_en := by
+  intro rules env v pe n t hWF
+  unfold ConjEn.realize
+  rw [conjEn_spec_holds rules env v pe n t hWF]
+  exact ⟨_, rfl⟩
+
+/-! non-vacuity: the hypotheses are satisfiable by the shipped data (tests, not property theorems) -/
+example : WFEn Gen.ConjEn.tables genEnvEn eatV ∧ WFEn Gen.ConjEn.tables genEnvEn whizV := by
+  refine ⟨by unfold WFEn; decide +kernel, by unfold WFEn; decide +kernel⟩
+example : ConjEn.realize Gen.ConjEn.tables genEnvEn (s "eat") (some eatV) .p3 .s .c
+    = .ok { text := s "would eat", warns := 0 } := by decide +kernel
+example : ConjEn.realize Gen.ConjEn.tables genEnvEn (s "eat") (some eatV) .p3 .s .bpTo
+    = .ok { text := s "to have eaten", warns := 0 } := by decide +kernel
+example : ConjEn.realize Gen.ConjEn.tables genEnvEn (s "whiz") (some whizV) .p3 .s .si
+    = .ok { text := s "[[whiz]]", warns := 1 } := by decide +kernel
+example : ConjEn.realize Gen.ConjEn.tables genEnvEn (s "whiz") (some whizV) .p3 .s .bp
+    = .ok { text := s "have [[whiz]]", warns := 1 } := by decide +kernel
+
+/-! ### French -/
+
+/-- THE FRENCH TENSE TABLE -/
+inductive KindFr where
+  /-- the person cell of the tense's own row; a reflexive verb takes its pronoun before -/
+  | finite
+  /-- imperative: second singular, first and second plural only; a reflexive verb takes the tonic pronoun after,
+      hyphenated -/
+  | imper
+  /-- past participle: the agreement cell -/
+  | part
+  /-- infinitive / present participle: the row is one string; reflexive pronoun before -/
+  | nonfin
+  /-- the auxiliary in tense `ta` followed by the past participle -/
+  | compound (ta : Tense)
+  /-- not a French tense -/
+  | noTense
+  deriving DecidableEq, Repr
+
+def kindFr : Tense → KindFr
+  | .p | .i | .f | .ps | .c | .s | .si => .finite
+  | .ip => .imper
+  | .pp => .part
+  | .pr | .b => .nonfin
+  | .pc => .compound .p | .pq => .compound .i | .cp => .compound .c | .pa => .compound .ps
+  | .fa => .compound .f | .spa => .compound .s | .spq => .compound .si | .bp => .compound .b
+  | .bTo | .bpTo => .noTense
+
+/-- one occurrence of a verb, as the specification sees it -/
+structure OccFr where
+  lemma : Str
+  tb : Table
+  /-- essentially reflexive (`pat = ["réfl"]`), or the auxiliary of such a verb -/
+  refl : Bool
+  /-- the participle does not agree: lexicon `pat = ["intr"]` and auxiliary avoir -/
+  invariable : Bool
+  /-- h aspiré -/
+  hAsp : Bool
+
+def defectFr (lemma : Str) : Out := { toks := [morphoTok lemma], warns := 1 }
+
+/-- a verb in a simple tense: its own word, with the pronoun of a reflexive verb -/
+def specSimple (env : ConjFr.FrEnv) (x : OccFr) (pe : Person) (n : Num) (g : Gender) (t : Tense) : Out :=
+  let vtok (e : Str) (lier : Bool) : Tok := { real := stemOf x.tb x.lemma ++ e, isV := true, hAsp := x.hAsp, lier := lier }
+  match kindFr t with
+  | .finite | .nonfin =>
+    match cell x.tb t (idx6 pe n) with
+    | none => defectFr x.lemma
+    | some e =>
+      { toks := (if x.refl then [{ real := env.reflPro pe n g, isPro := true }] else []) ++ [vtok e false], warns := 0 }
+  | .imper =>
+    if (pe = .p2 ∧ n = .s) ∨ (pe = .p1 ∧ n = .p) ∨ (pe = .p2 ∧ n = .p) then
+      match cell x.tb .ip (idx6 pe n) with
+      | none => defectFr x.lemma
+      | some e =>
+        if x.refl then { toks := [vtok e true, { real := env.tonicPro pe n g, isPro := true }], warns := 0 }
+        else { toks := [vtok e false], warns := 0 }
+    else defectFr x.lemma
+  | .part =>
+    if ConjFr.idx4 n g ≠ 0 ∧ x.invariable = true then defectFr x.lemma
+    else
+      match cell x.tb .pp (ConjFr.idx4 n g) with
+      | none => defectFr x.lemma
+      | some e => { toks := [vtok e false], warns := 0 }
+  | _ => defectFr x.lemma
+
+/-- the specified result for a verb with table `tb`; `tba`, `tbe` are the tables of avoir and être -/
+def specFrTb (env : ConjFr.FrEnv) (a e : Verb) (tba tbe tb : Table) (v : Verb) (auxOpt : Option Str)
+    (pe : Person) (n : Num) (g : Gender) (t : Tense) : Except Crash Out :=
+  let refl : Bool := decide (v.pat = some ConjFr.reflPat)
+  let auxLex : Str := v.aux.getD (s "av")
+  let auxEff : Str := auxOpt.getD auxLex
+  let me (aux : Str) : OccFr :=
+    { lemma := v.lemma, tb := tb, refl := refl, invariable := decide (v.pat = some ConjFr.intrPat ∧ aux = s "av"),
+      hAsp := v.hAsp }
+  match kindFr t with
+  | .compound ta =>
+    -- a verb that has no form in the auxiliary's tense at this person has no compound form either
+    if cell tb ta (idx6 pe n) = none then .ok (defectFr v.lemma)
+    else
+      -- être for reflexive verbs and when the (effective) auxiliary is `êt`; the participle then agrees
+      let etre : Bool := refl || decide (auxEff = s "êt")
+      let auxOcc : OccFr :=
+        if etre then { lemma := e.lemma, tb := tbe, refl := refl, invariable := false, hAsp := e.hAsp }
+        else { lemma := a.lemma, tb := tba, refl := false, invariable := false, hAsp := a.hAsp }
+      let gp := if etre then g else Gender.m
+      let np := if etre then n else Num.s
+      let auxS := specSimple env auxOcc pe n g ta
+      -- inside the periphrase stands the participle of the bare verb (lexicon auxiliary)
+      let ppS := specSimple env (me auxLex) .p3 np gp .pp
+      match surfaceFr auxS.toks with
+      | .error err => .error err
+      | .ok auxText =>
+        match surfaceFr ppS.toks with
+        | .error err => .error err
+        | .ok ppText =>
+          .ok { toks := [{ real := auxText, isV := true, hAsp := auxOcc.hAsp },
+                         { real := ppText, isV := true, hAsp := v.hAsp }],
+                warns := auxS.warns + ppS.warns }
+  | _ => .ok (specSimple env (me auxEff) pe n g t)
+
+/-- the specification of `V(v.lemma).t(t).pe(pe).n(n).g(g)[.aux(a)]` (French) -/
+def specFr (rules : Rules) (env : ConjFr.FrEnv) (v : Verb) (auxOpt : Option Str) (pe : Person) (n : Num)
+    (g : Gender) (t : Tense) : Except Crash Out :=
+  match env.avoir, env.etre with
+  | some a, some e =>
+    match lookup a.tab rules, lookup e.tab rules, lookup v.tab rules with
+    | some tba, some tbe, some tb => specFrTb env a e tba tbe tb v auxOpt pe n g t
+    | _, _, _ => .ok (defectFr v.lemma)
+  | _, _ => .ok (defectFr v.lemma)
+
+/-- well-formed French data (decidable): the verb; avoir and être are in the lexicon, well formed, not reflexive,
+    and être's entry has a `pat` -/
+def wfFrB (rules : Rules) (env : ConjFr.FrEnv) (v : Verb) : Bool :=
+  wfVerbFr rules v &&
+  match env.avoir, env.etre with
+  | some a, some e =>
+    a.lemma == s "avoir" && e.lemma == s "être" && wfVerbFr rules a && wfVerbFr rules e &&
+    a.pat != some ConjFr.reflPat && e.pat != some ConjFr.reflPat && e.pat.isSome
+  | _, _ => false
+
+def WFFr (rules : Rules) (env : ConjFr.FrEnv) (v : Verb) : Prop := wfFrB rules env v = true
+
+/-- **C01.fr** the French conjugation is the specified one, for every table, lemma, tense, person, number, gender,
+    auxiliary option -/
+def conjFr_spec : Prop :=
+  ∀ (rules : Rules) (env : ConjFr.FrEnv) (v : Verb) (auxOpt : Option Str) (pe : Person) (n : Num) (g : Gender)
+    (t : Tense), WFFr rules env v →
+    ConjFr.conjugate rules env v.lemma (some v) auxOpt pe n g t = specFr rules env v auxOpt pe n g t
+
+theorem WFFr_elim {rules : Rules} {env : ConjFr.FrEnv} {v : Verb} (h : WFFr rules env v) :
+    wfVerbFr rules v = true ∧
+    ∃ a e, env.avoir = some a ∧ env.etre = some e ∧ a.lemma = s "avoir" ∧ e.lemma = s "être" ∧
+      wfVerbFr rules a = true ∧ wfVerbFr rules e = true ∧ a.pat ≠ some ConjFr.reflPat ∧
+      e.pat ≠ some ConjFr.reflPat ∧ ∃ p, e.pat = some p := by
+  unfold WFFr wfFrB at h
+  cases ha : env.avoir with
+  | none => simp [ha] at h
+  | some a =>
+    cases he : env.etre with
+    | none => simp [ha, he] at h
+    | some e =>
+      simp only [ha, he, Bool.and_eq_true, beq_iff_eq, bne_iff_ne, ne_eq] at h
+      obtain ⟨h0, ⟨⟨⟨⟨⟨⟨h1, h2⟩, h3⟩, h4⟩, h5⟩, h6⟩, h7⟩⟩ := h
+      exact ⟨h0, a, e, rfl, rfl, h1, h2, h3, h4, h5, h6, Option.isSome_iff_exists.mp h7⟩
+
+/-- the `else` block of the method on a well-formed table is the specification of the simple tenses -/
+theorem conjugateSimple_spec (rules : Rules) (env : ConjFr.FrEnv) (fv : ConjFr.FrVerb) (x : OccFr) (tab : Str)
+    (pe : Person) (n : Num) (g : Gender) (t : Tense)
+    (htab : fv.st.tab = some tab) (htb : lookup tab rules = some x.tb) (hwf : wfTableFr x.tb = true)
+    (hw : fv.st.warns = 0) (hlem : x.lemma = fv.st.lemma) (hstem : fv.st.stem = stemOf x.tb x.lemma)
+    (hrefl : x.refl = fv.isReflexive) (hh : x.hAsp = fv.hAsp)
+    (hinv : t = .pp → x.invariable = decide (fv.pat = some ConjFr.intrPat ∧ fv.aux = s "av")) :
+    ConjFr.conjugateSimple rules env fv pe n g t = .ok (specSimple env x pe n g t) := by
+  have R := wfTableFr_elim hwf
+  unfold ConjFr.conjugateSimple
+  simp only [htab, htb, hw]
+  cases hk : kindFr t with
+  | finite =>
+    have hmem : t ∈ [Tense.p, .i, .f, .ps, .c, .s, .si, .ip] := by cases t <;> simp [kindFr] at hk ⊢
+    obtain ⟨a, b, c, d, e, f, hrow⟩ := R.fin t hmem
+    have hyes : x.tb.hasRow t.code = true := by simp [Table.hasRow, hrow, R.hasT]
+    have hc := cell6 hrow pe n
+    simp only [hyes, hrow, at6]
+    cases t <;> simp [kindFr] at hk <;>
+      (cases hp : pick6 a b c d e f pe n <;> cases hr : fv.isReflexive <;>
+        simp [specSimple, kindFr, hc, hp, hr, defectFr, morphoError, ConjFr.selfTok, hstem, hlem, hrefl, hh])
+  | imper =>
+    have ht : t = .ip := by cases t <;> simp [kindFr] at hk ⊢
+    subst ht
+    obtain ⟨a, b, c, d, e, f, hrow⟩ := R.fin .ip (by simp)
+    have hyes : x.tb.hasRow Tense.ip.code = true := by simp [Table.hasRow, hrow, R.hasT]
+    have hc := cell6 hrow pe n
+    simp only [hyes, hrow, at6]
+    cases hp : pick6 a b c d e f pe n <;> cases hr : fv.isReflexive <;> cases pe <;> cases n <;>
+      simp [specSimple, kindFr, hc, hp, hr, defectFr, morphoError, ConjFr.selfTok, hstem, hlem, hrefl, hh]
+  | part =>
+    have ht : t = .pp := by cases t <;> simp [kindFr] at hk ⊢
+    subst ht
+    obtain ⟨a, b, c, d, hrow⟩ := R.pp
+    have hyes : x.tb.hasRow Tense.pp.code = true := by simp [Table.hasRow, hrow, R.hasT]
+    have hc := cell4 hrow n g
+    have hinv' := hinv rfl
+    simp only [hyes, hrow, at4, idx4_pos, specSimple, kindFr]
+    generalize ConjFr.idx4 n g = k at hc ⊢
+    rw [hc]
+    cases hp : pick4 a b c d n g <;>
+      by_cases h0 : k = 0 <;>
+      by_cases h1 : fv.pat = some ConjFr.intrPat <;> by_cases h2 : fv.aux = s "av" <;>
+      simp [h0, h1, h2, hinv', defectFr, morphoError, ConjFr.selfTok, hstem, hlem, hh]
+  | nonfin =>
+    have ht : t = .pr ∨ t = .b := by cases t <;> simp [kindFr] at hk ⊢
+    have hrowy : (∃ y, x.tb.row? t.code = some (.str y)) ∨ x.tb.row? t.code = some .null := by
+      rcases ht with rfl | rfl
+      · exact R.pr
+      · exact Or.inl R.b
+    rcases hrowy with ⟨y, hrow⟩ | hrow
+    · have hyes : x.tb.hasRow t.code = true := by simp [Table.hasRow, hrow, R.hasT]
+      have hc := cellStr hrow (idx6 pe n)
+      simp only [hyes, hrow]
+      rcases ht with rfl | rfl <;> cases hr : fv.isReflexive <;>
+        simp [specSimple, kindFr, hc, hr, Row.concat, ConjFr.selfTok, hstem, hlem, hrefl, hh]
+    · have hyes : x.tb.hasRow t.code = true := by simp [Table.hasRow, hrow, R.hasT]
+      have hc : cell x.tb t (idx6 pe n) = none := by simp [cell, hrow]
+      simp only [hyes, hrow]
+      rcases ht with rfl | rfl <;>
+        simp [specSimple, kindFr, hc, defectFr, morphoError, hlem]
+  | compound ta =>
+    have hno : x.tb.row? t.code = none := R.none t (by cases t <;> simp [kindFr] at hk ⊢)
+    simp [Table.hasRow, hno, specSimple, hk, defectFr, morphoError, hlem]
+  | noTense =>
+    have hno : x.tb.row? t.code = none := R.none t (by cases t <;> simp [kindFr] at hk ⊢)
+    simp [Table.hasRow, hno, specSimple, hk, defectFr, morphoError, hlem]
+
+theorem realizeSimple_spec (rules : Rules) (env : ConjFr.FrEnv) (fv : ConjFr.FrVerb) (x : OccFr) (tab : Str)
+    (pe : Person) (n : Num) (g : Gender) (t : Tense)
+    (htab : fv.st.tab = some tab) (htb : lookup tab rules = some x.tb) (hwf : wfTableFr x.tb = true)
+    (hw : fv.st.warns = 0) (hlem : x.lemma = fv.st.lemma) (hstem : fv.st.stem = stemOf x.tb x.lemma)
+    (hrefl : x.refl = fv.isReflexive) (hh : x.hAsp = fv.hAsp)
+    (hinv : t = .pp → x.invariable = decide (fv.pat = some ConjFr.intrPat ∧ fv.aux = s "av")) :
+    ConjFr.realizeSimple rules env fv pe n g t =
+      match surfaceFr (specSimple env x pe n g t).toks with
+      | .error e => .error e
+      | .ok txt => .ok { text := txt, warns := (specSimple env x pe n g t).warns } := by
+  unfold ConjFr.realizeSimple
+  rw [conjugateSimple_spec rules env fv x tab pe n g t htab htb hwf hw hlem hstem hrefl hh hinv]
+  rfl
+
+theorem isReflexive_eq (fv : ConjFr.FrVerb) : fv.isReflexive = decide (fv.pat = some ConjFr.reflPat) := rfl
+
+theorem mkVerb_wf {rules : Rules} {v : Verb} {tb : Table} (auxOpt : Option Str)
+    (htb : lookup v.tab rules = some tb) (hend : endsWith v.lemma tb.ending = true) :
+    ConjFr.mkVerb rules v.lemma (some v) auxOpt =
+      { st := { lemma := v.lemma, tab := some v.tab, stem := stemOf tb v.lemma, warns := 0 }
+        pat := v.pat, aux := auxOpt.getD (v.aux.getD (s "av")), hAsp := v.hAsp } := by
+  unfold ConjFr.mkVerb
+  rw [setLemma_wf htb hend]
+  cases auxOpt <;> simp [stemOf]
+
+theorem tempsAux_kind (t : Tense) : ConjFr.tempsAux t = match kindFr t with
+    | .compound ta => some ta
+    | _ => none := by
+  cases t <;> rfl
+
+/-- **C01.fr** holds: the model of `TerminalFr.conjugate` IS the specification — all tables, lemmas, tenses,
+    persons, numbers, genders, auxiliary options -/
+theorem conjFr_spec_holds : conjFr_spec := by
+  intro rules env v auxOpt pe n g t hWF
+  obtain ⟨hv, a, e, hea, hee, hal, hel, hwa, hwe, hra, hre, pe', hpe'⟩ := WFFr_elim hWF
+  obtain ⟨tb, htb, hwf, hend⟩ := wfVerb_elim hv
+  obtain ⟨tba, htba, hwfa, henda⟩ := wfVerb_elim hwa
+  obtain ⟨tbe, htbe, hwfe, hende⟩ := wfVerb_elim hwe
+  have R := wfTableFr_elim hwf
+  unfold ConjFr.conjugate specFr
+  simp only [hea, hee, htba, htbe, htb]
+  rw [mkVerb_wf auxOpt htb hend]
+  simp only [tempsAux_kind]
+  unfold specFrTb
+  cases hk : kindFr t with
+  | compound ta =>
+    -- the auxiliary's tense is a person tense or the infinitive
+    have hta : kindFr ta = .finite ∨ ta = .b := by cases t <;> simp [kindFr] at hk <;> subst hk <;> simp [kindFr]
+    simp only [htb, R.hasT]
+    -- the auxiliaries as the model builds them
+    have hav := mkVerb_wf (rules := rules) (v := a) none htba henda
+    have het := mkVerb_wf (rules := rules) (v := e) none htbe hende
+    rw [hal] at hav
+    rw [hel] at het
+    -- the defectiveness test
+    have hdef : ∃ row, tb.row? ta.code = some row ∧
+        ConjFr.rowDefective row (idx6 pe n) = .ok (decide (cell tb ta (idx6 pe n) = none)) := by
+      rcases hta with hfin | rfl
+      · obtain ⟨a1, b1, c1, d1, e1, f1, hrow⟩ := R.fin ta (by cases ta <;> simp [kindFr] at hfin ⊢)
+        refine ⟨_, hrow, ?_⟩
+        simp only [ConjFr.rowDefective, at6, cell6 hrow]
+        cases pick6 a1 b1 c1 d1 e1 f1 pe n <;> simp
+      · obtain ⟨y, hrow⟩ := R.b
+        exact ⟨_, hrow, by simp [ConjFr.rowDefective, cellStr hrow]⟩
+    obtain ⟨row, hrow, hdefeq⟩ := hdef
+    simp only [hrow, hdefeq]
+    by_cases hcell : cell tb ta (idx6 pe n) = none
+    · simp [hcell, morphoError, defectFr]
+    · simp only [hcell, decide_false]
+      have hppV := mkVerb_wf (rules := rules) (v := v) none htb hend
+      rw [hppV]
+      have hnotpp : ta ≠ .pp := by
+        intro h; subst h; rcases hta with h | h <;> simp [kindFr] at h
+      by_cases hrefl : v.pat = some ConjFr.reflPat
+      · -- reflexive: être, itself reflexive
+        have hr : decide (v.pat = some ConjFr.reflPat) = true := by simp [hrefl]
+        simp only [ConjFr.chooseAux, ConjFr.FrVerb.isReflexive, hr, if_true, Bool.true_or]
+        rw [realizeSimple_spec rules env (ConjFr.auxAsEtre rules env true)
+          { lemma := e.lemma, tb := tbe, refl := true, invariable := false, hAsp := e.hAsp } e.tab pe n g ta
+          (by simp [ConjFr.auxAsEtre, hea, hee, hav, het])
+          htbe hwfe (by simp [ConjFr.auxAsEtre, hea, hee, hav, het])
+          (by simp [ConjFr.auxAsEtre, hea, hee, hav, het, hel])
+          (by simp [ConjFr.auxAsEtre, hea, hee, hav, het, hel])
+          (by simp [ConjFr.auxAsEtre, ConjFr.FrVerb.isReflexive])
+          (by simp [ConjFr.auxAsEtre, hea, hee, hav, het])
+          (fun h => absurd h hnotpp)]
+        rw [realizeSimple_spec rules env _
+          { lemma := v.lemma, tb := tb, refl := true,
+            invariable := decide (v.pat = some ConjFr.intrPat ∧ v.aux.getD (s "av") = s "av"), hAsp := v.hAsp }
+          v.tab .p3 n g .pp rfl htb hwf rfl rfl rfl (by simp [ConjFr.FrVerb.isReflexive, hrefl]) rfl
+          (fun _ => rfl)]
+        cases surfaceFr (specSimple env _ pe n g ta).toks <;> simp
+        cases surfaceFr (specSimple env _ Person.p3 n g Tense.pp).toks <;>
+          simp [ConjFr.selfTok, ConjFr.auxAsEtre, hee, het]
+      · by_cases haux : auxOpt.getD (v.aux.getD (s "av")) = s "êt"
+        · -- être by the lexicon or the option
+          simp only [ConjFr.chooseAux, ConjFr.FrVerb.isReflexive, hrefl, haux, if_true, decide_true, decide_false,
+            Bool.or_true, if_false, Bool.false_eq_true]
+          rw [realizeSimple_spec rules env (ConjFr.auxAsEtre rules env false)
+            { lemma := e.lemma, tb := tbe, refl := false, invariable := false, hAsp := e.hAsp } e.tab pe n g ta
+            (by simp [ConjFr.auxAsEtre, hea, hee, hav, het])
+            htbe hwfe (by simp [ConjFr.auxAsEtre, hea, hee, hav, het])
+            (by simp [ConjFr.auxAsEtre, hea, hee, hav, het, hel])
+            (by simp [ConjFr.auxAsEtre, hea, hee, hav, het, hel])
+            (by simp [ConjFr.auxAsEtre, ConjFr.FrVerb.isReflexive, hee, hpe'] <;>
+                  (intro h; exact hre (by rw [hpe', h])))
+            (by simp [ConjFr.auxAsEtre, hea, hee, hav, het])
+            (fun h => absurd h hnotpp)]
+          rw [realizeSimple_spec rules env _
+            { lemma := v.lemma, tb := tb, refl := false,
+              invariable := decide (v.pat = some ConjFr.intrPat ∧ v.aux.getD (s "av") = s "av"), hAsp := v.hAsp }
+            v.tab .p3 n g .pp rfl htb hwf rfl rfl rfl (by simp [ConjFr.FrVerb.isReflexive, hrefl]) rfl
+            (fun _ => rfl)]
+          cases surfaceFr (specSimple env _ pe n g ta).toks <;> simp
+          cases surfaceFr (specSimple env _ Person.p3 n g Tense.pp).toks <;>
+            simp [ConjFr.selfTok, ConjFr.auxAsEtre, hee, het]
+        · -- avoir: the participle does not agree
+          simp only [ConjFr.chooseAux, ConjFr.FrVerb.isReflexive, hrefl, haux, decide_false, if_false,
+            Bool.false_eq_true, Bool.or_self]
+          rw [hea, hav]
+          rw [realizeSimple_spec rules env _
+            { lemma := a.lemma, tb := tba, refl := false, invariable := false, hAsp := a.hAsp } a.tab pe n g ta
+            rfl htba hwfa rfl (by simp [hal]) (by simp [hal])
+            (by simp [ConjFr.FrVerb.isReflexive, hra])
+            rfl (fun h => absurd h hnotpp)]
+          rw [realizeSimple_spec rules env _
+            { lemma := v.lemma, tb := tb, refl := false,
+              invariable := decide (v.pat = some ConjFr.intrPat ∧ v.aux.getD (s "av") = s "av"), hAsp := v.hAsp }
+            v.tab .p3 .s .m .pp rfl htb hwf rfl rfl rfl (by simp [ConjFr.FrVerb.isReflexive, hrefl]) rfl
+            (fun _ => rfl)]
+          cases surfaceFr (specSimple env _ pe n g ta).toks <;> simp
+          cases surfaceFr (specSimple env _ Person.p3 Num.s Gender.m Tense.pp).toks <;>
+            simp [ConjFr.selfTok]
+  | finite | imper | part | nonfin | noTense =>
+    all_goals
+      simp only []
+      rw [conjugateSimple_spec rules env _
+        { lemma := v.lemma, tb := tb, refl := decide (v.pat = some ConjFr.reflPat),
+          invariable := decide (v.pat = some ConjFr.intrPat ∧ auxOpt.getD (v.aux.getD (s "av")) = s "av"),
+          hAsp := v.hAsp }
+        v.tab pe n g t rfl htb hwf rfl rfl rfl (by simp [ConjFr.FrVerb.isReflexive]) rfl (fun _ => rfl)]
+
+/-! #### generated data (French) -/
+
+def genEnvFr : ConjFr.FrEnv :=
+  { avoir := Gen.ConjFr.avoir, etre := Gen.ConjFr.etre, reflPro := ConjFr.reflProFr, tonicPro := ConjFr.tonicProFr }
+
+def falloirV : Verb := { lemma := s "falloir", tab := s "v80", aux := some (s "av"), pat := some [s "intr", s "impe"] }
+def enfuirV : Verb := { lemma := s "enfuir", tab := s "v54", aux := some (s "êt"), pat := some [s "réfl"] }
+def tomberV : Verb := { lemma := s "tomber", tab := s "v36", aux := some (s "êt"), pat := some [s "tdir", s "intr"] }
+
+/-- **C01.tables-fr** every table that a French lexicon verb refers to exists and is well formed -/
+def tables_wf_fr : Prop := ∀ name ∈ Gen.ConjFr.used, tableOK wfTableFr Gen.ConjFr.tables name = true
+
+set_option maxRecDepth 100000 in
+/-- FALSE of the shipped data: `apparoir` refers to table `v157`, which rules-fr.json does not have (a fact about
+    the DATA; since /repo 466e9e2 `V("apparoir")` warns and realizes as `[[apparoir]]` instead of raising) -/
+theorem tables_wf_fr_refuted : ¬ tables_wf_fr := by
+  intro h
+  have h1 := h (s "v157") (by decide +kernel)
+  revert h1
+  decide +kernel
+
+set_option maxRecDepth 100000 in
+/-- every table in use that EXISTS is well formed -/
+theorem tables_wf_fr_partial :
+    ∀ name ∈ Gen.ConjFr.used, (lookup name Gen.ConjFr.tables).isSome = true →
+      tableOK wfTableFr Gen.ConjFr.tables name = true := by
+  decide +kernel
+
+/-- the six persons of an auxiliary in a tense, on the shipped tables -/
+def auxForms (v : Option Verb) (t : Tense) : Option (List (Str × Nat)) :=
+  v.map (fun a => [0, 1, 2, 3, 4, 5].map (formOf Gen.ConjFr.tables a t))
+
+def plain (l : List String) : Option (List (Str × Nat)) := some (l.map (fun w => (s w, 0)))
+
+/-- **C01.periphrase-fr** avoir and être in the eight auxiliary tenses on the shipped tables, and the
+    well-formedness of the auxiliaries' entries -/
+def periphrase_fr : Prop :=
+  [Tense.p, .i, .f, .ps, .c, .s, .si].map (auxForms Gen.ConjFr.avoir) =
+    [plain ["ai", "as", "a", "avons", "avez", "ont"],
+     plain ["avais", "avais", "avait", "avions", "aviez", "avaient"],
+     plain ["aurai", "auras", "aura", "aurons", "aurez", "auront"],
+     plain ["eus", "eus", "eut", "eûmes", "eûtes", "eurent"],
+     plain ["aurais", "aurais", "aurait", "aurions", "auriez", "auraient"],
+     plain ["aie", "aies", "ait", "ayons", "ayez", "aient"],
+     plain ["eusse", "eusses", "eût", "eussions", "eussiez", "eussent"]] ∧
+  [Tense.p, .i, .f, .ps, .c, .s, .si].map (auxForms Gen.ConjFr.etre) =
+    [plain ["suis", "es", "est", "sommes", "êtes", "sont"],
+     plain ["étais", "étais", "était", "étions", "étiez", "étaient"],
+     plain ["serai", "seras", "sera", "serons", "serez", "seront"],
+     plain ["fus", "fus", "fut", "fûmes", "fûtes", "furent"],
+     plain ["serais", "serais", "serait", "serions", "seriez", "seraient"],
+     plain ["sois", "sois", "soit", "soyons", "soyez", "soient"],
+     plain ["fusse", "fusses", "fût", "fussions", "fussiez", "fussent"]] ∧
+  Gen.ConjFr.avoir.map (fun a => formOf Gen.ConjFr.tables a .b 0) = some (s "avoir", 0) ∧
+  Gen.ConjFr.etre.map (fun a => formOf Gen.ConjFr.tables a .b 0) = some (s "être", 0) ∧
+  WFFr Gen.ConjFr.tables genEnvFr tomberV
+
+set_option maxRecDepth 100000 in
+theorem periphrase_fr_tbl : periphrase_fr := by
+  unfold periphrase_fr WFFr
+  decide +kernel
+
+/-! #### defective forms, totality (French) -/
+
+theorem surfaceFr_defect (lemma : Str) : surfaceFr (defectFr lemma).toks = .ok (bracket lemma) := by
+  simp [defectFr, morphoTok, surfaceFr, removeEmpty, detok, stripLeadingSpace, bracket, s, pure, Except.pure,
+    bind, Except.bind]
+
+/-- the person/agreement index that tense `t` reads -/
+def cellIdx (t : Tense) (pe : Person) (n : Num) (g : Gender) : Nat :=
+  if t = .pp then ConjFr.idx4 n g else idx6 pe n
+
+/-- **C01.defective-fr** in a simple tense, a form that the table does not have (`null`) is realized as the
+    bracketed lemma with exactly one warning -/
+def defective_fr : Prop :=
+  ∀ (rules : Rules) (env : ConjFr.FrEnv) (v : Verb) (auxOpt : Option Str) (tb : Table) (pe : Person) (n : Num)
+    (g : Gender) (t : Tense), WFFr rules env v → lookup v.tab rules = some tb →
+    (kindFr t = .finite ∨ kindFr t = .imper ∨ kindFr t = .part ∨ kindFr t = .nonfin) →
+    cell tb t (cellIdx t pe n g) = none →
+    ConjFr.realize rules env v.lemma (some v) auxOpt pe n g t = .ok { text := bracket v.lemma, warns := 1 }
+
+theorem specSimple_defect (env : ConjFr.FrEnv) (x : OccFr) (pe : Person) (n : Num) (g : Gender) (t : Tense)
+    (hk : kindFr t = .finite ∨ kindFr t = .imper ∨ kindFr t = .part ∨ kindFr t = .nonfin)
+    (hc : cell x.tb t (cellIdx t pe n g) = none) : specSimple env x pe n g t = defectFr x.lemma := by
+  unfold specSimple
+  cases t <;> simp [kindFr] at hk <;> simp [cellIdx] at hc <;> simp [kindFr, hc]
+  all_goals (first | (split <;> rfl) | skip)
+
+theorem defective_fr_holds : defective_fr := by
+  intro rules env v auxOpt tb pe n g t hWF htb hk hc
+  obtain ⟨_, a, e, hea, hee, _, _, hwa, hwe, _⟩ := WFFr_elim hWF
+  obtain ⟨tba, htba, _⟩ := wfVerb_elim hwa
+  obtain ⟨tbe, htbe, _⟩ := wfVerb_elim hwe
+  unfold ConjFr.realize
+  rw [conjFr_spec_holds rules env v auxOpt pe n g t hWF]
+  unfold specFr
+  simp only [hea, hee, htba, htbe, htb]
+  unfold specFrTb
+  have hnc : ∀ ta, kindFr t ≠ .compound ta := by
+    intro ta h
+    rcases hk with h' | h' | h' | h' <;> rw [h] at h' <;> cases h'
+  cases hkk : kindFr t with
+  | compound ta => exact absurd hkk (hnc ta)
+  | finite | imper | part | nonfin | noTense =>
+    all_goals
+      simp only []
+      rw [specSimple_defect env _ pe n g t hk hc, surfaceFr_defect]
+      rfl
+
+/-- **C01.total-fr** realization never raises a Python exception (`.other` is the model's fragment marker) -/
+def total_fr : Prop :=
+  ∀ (rules : Rules) (env : ConjFr.FrEnv) (v : Verb) (auxOpt : Option Str) (pe : Person) (n : Num) (g : Gender)
+    (t : Tense) (err : Crash), WFFr rules env v →
+    ConjFr.realize rules env v.lemma (some v) auxOpt pe n g t = .error err → err = .other
+
+theorem specFr_error (rules : Rules) (env : ConjFr.FrEnv) (v : Verb) (auxOpt : Option Str) (pe : Person) (n : Num)
+    (g : Gender) (t : Tense) (err : Crash) (h : specFr rules env v auxOpt pe n g t = .error err) : err = .other := by
+  unfold specFr at h
+  split at h
+  · split at h
+    · unfold specFrTb at h
+      simp only [] at h
+      split at h
+      · split at h
+        · cases h
+        · split at h
+          · next hh => cases h; exact surfaceFr_error _ _ hh
+          · split at h
+            · next hh => cases h; exact surfaceFr_error _ _ hh
+            · cases h
+      · cases h
+    · cases h
+  · cases h
+
+theorem total_fr_holds : total_fr := by
+  intro rules env v auxOpt pe n g t err hWF h
+  unfold ConjFr.realize at h
+  rw [conjFr_spec_holds rules env v auxOpt pe n g t hWF] at h
+  split at h
+  · next e he => cases h; exact specFr_error _ _ _ _ _ _ _ _ _ he
+  · split at h
+    · next hh => cases h; exact surfaceFr_error _ _ hh
+    · cases h
+
+/-! non-vacuity (tests, not property theorems): the hypotheses hold of shipped verbs, and sample forms -/
+example : WFFr Gen.ConjFr.tables genEnvFr enfuirV ∧ WFFr Gen.ConjFr.tables genEnvFr falloirV := by
+  refine ⟨by unfold WFFr; decide +kernel, by unfold WFFr; decide +kernel⟩
+example : ConjFr.realize Gen.ConjFr.tables genEnvFr (s "falloir") (some falloirV) none .p3 .s .m .pr
+    = .ok { text := s "[[falloir]]", warns := 1 } := by decide +kernel
+example : ConjFr.realize Gen.ConjFr.tables genEnvFr (s "enfuir") (some enfuirV) none .p3 .s .m .pc
+    = .ok { text := s "s'est enfui", warns := 0 } := by decide +kernel
+example : ConjFr.realize Gen.ConjFr.tables genEnvFr (s "enfuir") (some enfuirV) none .p2 .p .f .ip
+    = .ok { text := s "enfuyez-vous", warns := 0 } := by decide +kernel
+example : ConjFr.realize Gen.ConjFr.tables genEnvFr (s "tomber") (some tomberV) none .p3 .p .f .pq
+    = .ok { text := s "étaient tombées", warns := 0 } := by decide +kernel
+example : ConjFr.realize Gen.ConjFr.tables genEnvFr (s "tomber") (some tomberV) (some (s "av")) .p3 .p .f .pq
+    = .ok { text := s "avaient tombé", warns := 0 } := by decide +kernel
+example : ConjFr.realize Gen.ConjFr.tables genEnvFr (s "falloir") (some falloirV) none .p1 .s .m .p
+    = .ok { text := s "[[falloir]]", warns := 1 } := by decide +kernel
 
 end Pyrealb.C01
